@@ -158,12 +158,17 @@ def statusesOf (c : Cfg) (w : Option Worker) (shared : List Result) : List Strin
   if !c.stateful then shared.map (fun r => lower r.status)
   else (filteredResults c (c.startedWorker <|> w) shared).map (fun r => lower r.status)
 
+/-- `worker and worker.id not in self.params["name"]` -/
+def wrongWorker (c : Cfg) : Option Worker → Bool
+  | some x => !(isSubstr x.id c.name)
+  | none => false
+
 /-- `TestNode.should_rerun(worker)` with `shared` = `self.shared_results` -/
 def shouldRerun (c : Cfg) (w : Option Worker) (shared : List Result) : Except Err Bool :=
   if c.dryRun.getD dryRunDefault == dryRunYes then .ok false
   else if c.flat then .ok false
   else if c.cloneSource then .ok false
-  else if (match w with | some x => !(isSubstr x.id c.name) | none => false) then .error .runtimeError
+  else if wrongWorker c w then .error .runtimeError
   else
     let rerun := rerunList c
     let stop := stopList c
